@@ -264,6 +264,9 @@ def factorInner (n : Nat) (Ap Ai : Array Nat) (Ax : Array α) (Li : Array Nat) (
     { Lp := Lp, Li := Li, Lx := Lx, D := Array.replicate n 0, Dinv := Dinv,
       yMarkers := Array.replicate n false, nextColspace := Lp.extract 0 n,
       yVals := Array.replicate n 0, regularizeCount := 0, positive := 0 }
+  -- `if n == 0 { return Ok(positiveValuesInD); }`: nothing to eliminate in an empty matrix
+  -- (repaired defect C12-empty-matrix-panic, /repo 6c94e42: the code below reads `Ap[1]`, `D[0]`)
+  if n == 0 then pure s0 else
   let s ←
     if !logical then do
       -- `if Ap[1] > Ap[0] { D[0] = Ax[Ap[0]] }`: the pivot is read only when column 0 of the
